@@ -166,6 +166,11 @@ def directed_packages():
         '<table:table table:name="t" table:style-name="Table1"><table:table-column/><table:table-row><table:table-cell><text:p text:style-name="Table1">x</text:p></table:table-cell></table:table-row></table:table>',
         autostyles='<style:style style:name="Table1" style:family="table"><style:table-properties style:width="10cm"/></style:style>',
         styles='<style:style style:name="Table1" style:family="paragraph"><style:text-properties fo:color="#ff0000"/></style:style>')))
+    # the same inside one part: a paragraph style and a text style of content.xml with one name, both referenced (names are unique per family)
+    out.append(('two automatic styles of different families with one name in one part', P.simple_package(
+        '<text:p text:style-name="a1">b<text:span text:style-name="a1">s</text:span></text:p>',
+        autostyles='<style:style style:name="a1" style:family="paragraph"><style:paragraph-properties fo:text-align="center"/></style:style>'
+                   '<style:style style:name="a1" style:family="text"><style:text-properties fo:font-weight="bold"/></style:style>')))
     # pictures in a folder below Pictures/, and manifest rows for the folders
     out.append(('a folder below Pictures/ with manifest rows for the folders', P.make_package(
         [('content.xml', P.content_xml('<text:p><draw:frame svg:width="1cm" svg:height="1cm"><draw:image xlink:href="Pictures/sub/x.png" xlink:type="simple"/></draw:frame></text:p>'), 'text/xml'),
